@@ -1,0 +1,185 @@
+//go:build verif
+
+package encoder
+
+import (
+	"fmt"
+	"sync"
+	"unsafe"
+
+	"github.com/goccy/go-json/internal/runtime"
+)
+
+// Slot-access assertions for the /verif harness. Every load/store of the interpreters' scratch
+// slot array goes through VerifSlotLoad / VerifSlotStore, which check that the address lies inside
+// the slot array of an active RuntimeContext and that a load sees a slot last written from the
+// same frame (a slot written from another frame base means two frames overlap).
+
+type verifShadow struct {
+	ctx   *RuntimeContext
+	base  uintptr
+	n     int
+	owner []uintptr // frame offset + 1 of the last store per slot, 0 = not written in this run
+}
+
+var VerifSlots struct {
+	sync.Mutex
+	On       bool
+	active   []*verifShadow
+	Errs     []string
+	Accesses int
+	MaxSlot  int
+	MaxFrame int // largest frame base (in slots) seen
+	Frames   int // number of distinct (base change) events
+	lastBase uintptr
+}
+
+func verifSlotErr(format string, args ...interface{}) {
+	if len(VerifSlots.Errs) < 16 {
+		VerifSlots.Errs = append(VerifSlots.Errs, fmt.Sprintf(format, args...))
+	}
+}
+
+// VerifSlotsReset clears the counters and error list.
+func VerifSlotsReset(on bool) {
+	VerifSlots.Lock()
+	defer VerifSlots.Unlock()
+	VerifSlots.On = on
+	VerifSlots.active = nil
+	VerifSlots.Errs = nil
+	VerifSlots.Accesses = 0
+	VerifSlots.MaxSlot = 0
+	VerifSlots.MaxFrame = 0
+	VerifSlots.Frames = 0
+	VerifSlots.lastBase = 0
+}
+
+func verifSlotInit(c *RuntimeContext) {
+	if !VerifSlots.On {
+		return
+	}
+	VerifSlots.Lock()
+	defer VerifSlots.Unlock()
+	for _, s := range VerifSlots.active {
+		if s.ctx == c {
+			s.owner = make([]uintptr, len(c.Ptrs))
+			s.n = len(c.Ptrs)
+			s.base = uintptr((*runtime.SliceHeader)(unsafe.Pointer(&c.Ptrs)).Data)
+			return
+		}
+	}
+	VerifSlots.active = append(VerifSlots.active, &verifShadow{
+		ctx:   c,
+		base:  uintptr((*runtime.SliceHeader)(unsafe.Pointer(&c.Ptrs)).Data),
+		n:     len(c.Ptrs),
+		owner: make([]uintptr, len(c.Ptrs)),
+	})
+}
+
+func verifSlotPtrs(c *RuntimeContext) {
+	if !VerifSlots.On {
+		return
+	}
+	VerifSlots.Lock()
+	defer VerifSlots.Unlock()
+	for _, s := range VerifSlots.active {
+		if s.ctx == c {
+			s.base = uintptr((*runtime.SliceHeader)(unsafe.Pointer(&c.Ptrs)).Data)
+			s.n = len(c.Ptrs)
+			for len(s.owner) < s.n {
+				s.owner = append(s.owner, 0)
+			}
+			return
+		}
+	}
+}
+
+func verifSlotRelease(c *RuntimeContext) {
+	if !VerifSlots.On {
+		return
+	}
+	VerifSlots.Lock()
+	defer VerifSlots.Unlock()
+	for i, s := range VerifSlots.active {
+		if s.ctx == c {
+			VerifSlots.active = append(VerifSlots.active[:i], VerifSlots.active[i+1:]...)
+			return
+		}
+	}
+}
+
+func verifSlotFind(addr uintptr) *verifShadow {
+	for _, s := range VerifSlots.active {
+		if addr >= s.base && addr < s.base+uintptr(s.n)*uintptrSize {
+			return s
+		}
+	}
+	return nil
+}
+
+func verifSlotAccess(base uintptr, idx uint32, isStore bool) {
+	VerifSlots.Lock()
+	defer VerifSlots.Unlock()
+	VerifSlots.Accesses++
+	addr := base + uintptr(idx)
+	s := verifSlotFind(addr)
+	kind := "load"
+	if isStore {
+		kind = "store"
+	}
+	if s == nil {
+		// describe the distance to the nearest active array
+		for _, a := range VerifSlots.active {
+			if base >= a.base && base <= a.base+uintptr(a.n)*uintptrSize {
+				verifSlotErr("out-of-bounds %s: frame %d slot %d, slot array has %d", kind, (base-a.base)/uintptrSize, idx/uintptrSize, a.n)
+				return
+			}
+		}
+		verifSlotErr("out-of-bounds %s: address outside every active slot array (idx %d)", kind, idx)
+		return
+	}
+	if (addr-s.base)%uintptrSize != 0 || idx%uintptrSize != 0 {
+		verifSlotErr("unaligned %s: idx %d", kind, idx)
+		return
+	}
+	if base < s.base {
+		verifSlotErr("%s with frame base below the slot array", kind)
+		return
+	}
+	slot := int((addr - s.base) / uintptrSize)
+	frame := (base - s.base) / uintptrSize
+	if slot > VerifSlots.MaxSlot {
+		VerifSlots.MaxSlot = slot
+	}
+	if int(frame) > VerifSlots.MaxFrame {
+		VerifSlots.MaxFrame = int(frame)
+	}
+	if base != VerifSlots.lastBase {
+		VerifSlots.Frames++
+		VerifSlots.lastBase = base
+	}
+	if isStore {
+		s.owner[slot] = frame + 1
+		return
+	}
+	switch o := s.owner[slot]; {
+	case o == 0:
+		if slot != 0 {
+			verifSlotErr("load of a slot never written in this run: frame %d slot %d", frame, idx/uintptrSize)
+		}
+	case o != frame+1:
+		verifSlotErr("frame overlap: frame %d loads slot %d last written from frame %d", frame, idx/uintptrSize, o-1)
+	}
+}
+
+func VerifSlotLoad(base uintptr, idx uint32) {
+	if VerifSlots.On {
+		verifSlotAccess(base, idx, false)
+	}
+}
+
+func VerifSlotStore(base uintptr, idx uint32) {
+	if VerifSlots.On {
+		verifSlotAccess(base, idx, true)
+	}
+}
